@@ -128,6 +128,26 @@ pub fn c01() -> Outcome {
             }
         }
     }
+    // state values of tiny magnitude against huge coefficients (all dyadic, every partial sum exact): a value below machine epsilon is still a value
+    {
+        use v1::function::Function as F;
+        let t60 = 2f64.powi(-60); let b60 = 2f64.powi(60);
+        let cases: Vec<(Function, Vec<(u64, f64)>, f64)> = vec![
+            (f_of(F::Linear(lin(&[(1, b60)], 3.0))), vec![(1, t60)], 4.0),
+            (f_of(F::Linear(lin(&[(1, b60), (2, 1.0)], 0.0))), vec![(1, t60), (2, -1.0)], 0.0),
+            (f_of(F::Quadratic(quad(&[(1, 2, b60)], Some(lin(&[(2, 2f64.powi(55))], 0.0))))), vec![(1, 4.0), (2, t60)], 4.0 + 2f64.powi(-5)),
+            (f_of(F::Quadratic(quad(&[(1, 1, b60 * b60)], None))), vec![(1, t60)], 1.0),
+            (f_of(F::Polynomial(poly(&[(&[1, 2, 3], b60), (&[3], 1.0)]))), vec![(1, t60), (2, 0.5), (3, 2.0)], 3.0),
+            (f_of(F::Polynomial(poly(&[(&[1, 1, 1, 1], 2f64.powi(200))]))), vec![(1, 2f64.powi(-50))], 1.0),
+        ];
+        for (k, (f, st, want)) in cases.iter().enumerate() {
+            n += 1; d.insert((2000 + k, 0));
+            match f.evaluate(&state(st)) {
+                Ok((v, _)) => if v != *want { return Outcome { cases: n, distinct: d.len(), fail: Some(format!("Function::evaluate: f={f:?} at {st:?} (exact in binary arithmetic): got {v}, expected {want}")) }; },
+                Err(e) => return Outcome { cases: n, distinct: d.len(), fail: Some(format!("Function::evaluate failed ({e}): f={f:?} at {st:?}")) },
+            }
+        }
+    }
     // extreme ids: 0 and u64::MAX are legal uint64 ids, in every position of every representation
     {
         use v1::function::Function as F;
@@ -183,6 +203,28 @@ pub fn c03() -> Outcome {
             }
         }
     }
+    // two steps = at once, every sample function, several splits of the fixed part (values and returned ids)
+    for (fi, f) in sample_functions().iter().enumerate() { for (ma, mb) in [(0b000011u32, 0b001100u32), (0b010101, 0b101010), (0b000001, 0b111110), (0b100100, 0b000011), (0b000111, 0)] {
+        n += 1; d.insert((1000 + fi, ma * 64 + mb));
+        let pick = |m: u32| -> HashMap<u64, f64> { keys.iter().enumerate().filter(|(k, _)| m >> k & 1 == 1).map(|(_, id)| (*id, full[id])).collect() };
+        let (a, b) = (pick(ma), pick(mb)); let both: HashMap<u64, f64> = a.iter().chain(b.iter()).map(|(k, v)| (*k, *v)).collect();
+        let rest: HashMap<u64, f64> = keys.iter().filter(|id| !both.contains_key(id)).map(|id| (*id, full[id])).collect();
+        let mut g2 = f.clone();
+        let i1 = match g2.partial_evaluate(&a.clone().into_iter().collect()) { Ok(x) => x, Err(e) => return Outcome { cases: n, distinct: d.len(), fail: Some(format!("partial_evaluate failed ({e}): f={f:?} fixed={a:?}")) } };
+        let i2 = match g2.partial_evaluate(&b.clone().into_iter().collect()) { Ok(x) => x, Err(e) => return Outcome { cases: n, distinct: d.len(), fail: Some(format!("second partial_evaluate failed ({e}): f={f:?} fixed={a:?} then {b:?}")) } };
+        let mut g1 = f.clone();
+        let i0 = match g1.partial_evaluate(&both.clone().into_iter().collect()) { Ok(x) => x, Err(e) => return Outcome { cases: n, distinct: d.len(), fail: Some(format!("partial_evaluate failed ({e}): f={f:?} fixed={both:?}")) } };
+        let used = ref_ids(f);
+        if i1.iter().any(|i| !(a.contains_key(i) && used.contains(i))) || i2.iter().any(|i| !(b.contains_key(i) && used.contains(i))) || i0.iter().any(|i| !(both.contains_key(i) && used.contains(i))) {
+            return Outcome { cases: n, distinct: d.len(), fail: Some(format!("returned ids {i1:?} then {i2:?} (at once: {i0:?}) are not fixed variables occurring in f={f:?}; fixed {a:?} then {b:?}")) };
+        }
+        let st: State = rest.clone().into_iter().collect();
+        let (v2, v1_) = (g2.evaluate(&st).map(|x| x.0).map_err(|e| e.to_string()), g1.evaluate(&st).map(|x| x.0).map_err(|e| e.to_string()));
+        let want = ref_val(f, &full).unwrap();
+        match (&v2, &v1_) { (Ok(x), Ok(y)) if (x - want).abs() <= 1e-9 * (1.0 + want.abs()) && (y - want).abs() <= 1e-9 * (1.0 + want.abs()) => {}
+            _ => return Outcome { cases: n, distinct: d.len(), fail: Some(format!("fixing {a:?} then {b:?} gives {v2:?}, fixing both at once gives {v1_:?}, the original at the combined assignment gives {want}: f={f:?}")) } }
+        if ref_ids(&g2).iter().any(|i| both.contains_key(i)) { return Outcome { cases: n, distinct: d.len(), fail: Some(format!("after fixing {a:?} then {b:?} the function still mentions a fixed variable: {g2:?}")) }; }
+    } }
     // two steps = at once (linear with a repeated id, both orders)
     {
         use v1::function::Function as F;
@@ -282,6 +324,37 @@ pub fn c05() -> Outcome {
         let st = sol.state.unwrap().entries;
         for k in 10..=16u64 { if st.get(&k) != Some(&(7.0 + (k - 9) as f64)) { return Outcome { cases: n, distinct: d.len(), fail: Some(format!("dependent chain x10 := x2+1, x11 := x10+1, ...: reported state {st:?}, expected x{k} = {}", 7.0 + (k - 9) as f64)) }; } }
         if st.get(&0) != Some(&3.0) || st.get(&1) != Some(&4.0) || st.get(&2) != Some(&7.0) { return Outcome { cases: n, distinct: d.len(), fail: Some(format!("reported state {st:?}, expected x0=3 (given), x1=4 (fixed), x2=7 (dependent = 2*x0+1)")) }; }
+    }
+    // dependency graphs of depth >= 3 whose ids do not follow the evaluation order: a diamond, a descending chain, random DAGs (every HashMap order must give the answer)
+    {
+        let eval_deps = |base: &[(u64, f64)], defs: &[(u64, Vec<(u64, f64)>, f64)]| -> Result<(), String> {
+            let mut dvs: Vec<DecisionVariable> = base.iter().map(|(i, _)| dv(*i, Kind::Continuous, None)).collect();
+            for (k, _, _) in defs { dvs.push(dv(*k, Kind::Continuous, None)); }
+            let mut i = inst(dvs, f_of(F::Linear(lin(&[(base[0].0, 1.0)], 0.0))), vec![]);
+            for (k, t, c) in defs { i.decision_variable_dependency.insert(*k, f_of(F::Linear(lin(t, *c)))); }
+            // reference: definitions are listed in a valid evaluation order
+            let mut val: HashMap<u64, f64> = base.iter().cloned().collect();
+            for (k, t, c) in defs { let v = c + t.iter().map(|(j, a)| a * val[j]).sum::<f64>(); val.insert(*k, v); }
+            let (sol, _) = i.evaluate(&state(base)).map_err(|e| format!("evaluate failed on the acyclic dependencies {defs:?} at {base:?}: {e}"))?;
+            let st = sol.state.unwrap().entries;
+            for (k, v) in &val { if st.get(k) != Some(v) { return Err(format!("dependencies {defs:?} at {base:?}: reported x{k} = {:?}, expected {v}", st.get(k))); } }
+            Ok(())
+        };
+        let shapes: Vec<(Vec<(u64, f64)>, Vec<(u64, Vec<(u64, f64)>, f64)>)> = vec![
+            (vec![(1, 3.0), (2, 2.0)], vec![(3, vec![(1, 1.0), (2, 1.0)], 0.0), (4, vec![(1, 1.0), (2, -1.0)], 0.0), (5, vec![(3, 1.0), (4, 1.0)], 0.0), (6, vec![(5, 2.0)], 1.0)]),          // diamond
+            (vec![(10, 1.0)], vec![(9, vec![(10, 1.0)], 1.0), (8, vec![(9, 2.0)], 0.0), (7, vec![(8, 1.0)], -1.0), (6, vec![(7, 0.5)], 0.0)]),                                    // descending chain
+            (vec![(1, 1.0), (2, -1.0)], vec![(30, vec![(1, 1.0)], 0.0), (20, vec![(30, 1.0), (2, 1.0)], 1.0), (25, vec![(20, 2.0), (30, 1.0), (1, 1.0)], 0.0), (21, vec![(25, 1.0)], 0.0), (40, vec![(21, 1.0), (20, 1.0), (30, 1.0), (25, 1.0)], 0.5)]),   // one definition refers to four others
+        ];
+        for (k, (base, defs)) in shapes.iter().enumerate() { n += 1; d.insert((300 + k, 0)); if let Err(e) = eval_deps(base, defs) { return Outcome { cases: n, distinct: d.len(), fail: Some(e) }; } }
+        let mut r = Rng::new(505);
+        for k in 0..40 {
+            n += 1; d.insert((320 + k, 0));
+            let mut ids: Vec<u64> = vec![11, 12, 13, 14, 15, 16, 17]; r.shuffle(&mut ids); ids.truncate(3 + r.below(5));
+            let base = vec![(1u64, r.value()), (2u64, r.value())];
+            let mut known: Vec<u64> = vec![1, 2]; let mut defs = vec![];
+            for id in &ids { let nt = 1 + r.below(3); let mut t: Vec<(u64, f64)> = vec![]; for _ in 0..nt { let j = if r.chance(2, 3) { *known.last().unwrap() } else { r.pick(&known) }; if !t.iter().any(|x| x.0 == j) { t.push((j, r.pick(&[-1.0, 0.5, 1.0, 2.0]))); } } defs.push((*id, t, r.pick(&[0.0, 1.0, -0.5]))); known.push(*id); }
+            if let Err(e) = eval_deps(&base, &defs) { return Outcome { cases: n, distinct: d.len(), fail: Some(e) }; }
+        }
     }
     // a state that also carries (stale) entries for dependent variables - as a solver adapter returns them -: the reported value is the one the dependency defines
     {
@@ -571,6 +644,16 @@ pub fn c08() -> Outcome {
         ("kind unspecified", Box::new(|i| i.decision_variables[2].kind = 0), false, true),
         ("bound lower > upper", Box::new(|i| { let b = i.decision_variables[2].bound.as_mut().unwrap(); b.lower = 6.0; }), false, true),
         ("bound NaN", Box::new(|i| { let b = i.decision_variables[2].bound.as_mut().unwrap(); b.upper = f64::NAN; }), false, true),
+        ("bound NaN lower", Box::new(|i| { let b = i.decision_variables[2].bound.as_mut().unwrap(); b.lower = f64::NAN; }), false, true),
+        ("bound lower = +inf", Box::new(|i| { let b = i.decision_variables[2].bound.as_mut().unwrap(); b.lower = f64::INFINITY; b.upper = f64::INFINITY; }), false, true),
+        ("bound upper = -inf", Box::new(|i| { let b = i.decision_variables[2].bound.as_mut().unwrap(); b.lower = f64::NEG_INFINITY; b.upper = f64::NEG_INFINITY; }), false, true),
+        ("bound lower = +inf only", Box::new(|i| { let b = i.decision_variables[2].bound.as_mut().unwrap(); b.lower = f64::INFINITY; }), false, true),
+        ("bound upper = -inf only", Box::new(|i| { let b = i.decision_variables[2].bound.as_mut().unwrap(); b.upper = f64::NEG_INFINITY; }), false, true),
+        ("bound on a binary variable inverted", Box::new(|i| { let mut b = v1::Bound::default(); b.lower = 1.0; b.upper = 0.0; i.decision_variables[0].bound = Some(b); }), false, true),
+        // well-formed shapes that must NOT be rejected
+        ("bound half-infinite (valid)", Box::new(|i| { let b = i.decision_variables[2].bound.as_mut().unwrap(); b.lower = f64::NEG_INFINITY; }), false, false),
+        ("bound unbounded (valid)", Box::new(|i| { let b = i.decision_variables[2].bound.as_mut().unwrap(); b.lower = f64::NEG_INFINITY; b.upper = f64::INFINITY; }), false, false),
+        ("bound degenerate (valid)", Box::new(|i| { let b = i.decision_variables[2].bound.as_mut().unwrap(); b.lower = 2.0; b.upper = 2.0; }), false, false),
         ("removed constraint without constraint", Box::new(|i| i.removed_constraints[0].constraint = None), false, true),
         ("one-hot undefined variable", Box::new(|i| i.constraint_hints.as_mut().unwrap().one_hot_constraints[0].decision_variables = vec![1, 9]), false, true),
         ("one-hot repeated variable", Box::new(|i| i.constraint_hints.as_mut().unwrap().one_hot_constraints[0].decision_variables = vec![1, 2, 1]), false, true),
